@@ -24,9 +24,11 @@ ListShards(pods) ==
 
 (* ChangeScale(n) on a StatefulSet with `replicas' (-1: spec.replicas unset), volume claim      *)
 (* templates 1..ntpl and existing claims pvcs.                                                  *)
-ScaleResult(replicas, ntpl, pvcs, flag, n) ==
+ScaleResult(replicas, ntpl, pvcs, flag, n, updfail) ==
   IF replicas = -1 \/ replicas = n
     THEN [replicas |-> replicas, pvcs |-> pvcs, updates |-> 0, deleted |-> {}]
+  ELSE IF updfail   \* the API server rejects the update (conflict): nothing else happens
+    THEN [replicas |-> replicas, pvcs |-> pvcs, updates |-> 1, deleted |-> {}]
     ELSE LET gone == IF flag THEN {c \in pvcs : c.tpl \in 1..ntpl /\ c.ord >= n /\ c.ord < replicas} ELSE {}
          IN [replicas |-> n, pvcs |-> pvcs \ gone, updates |-> 1, deleted |-> gone]
 
